@@ -2,6 +2,12 @@
 """Regenerates the seeded-change table of DESIGN.md (between the SEED-TABLE markers) from seeded/*/meta.json."""
 import json, glob, os, re
 ROOT = os.path.dirname(os.path.dirname(os.path.abspath(__file__)))
+st = {}
+try:
+    for r in json.load(open(os.path.join(ROOT, "evidence", "selftest.json")))["results"]:
+        if r["kind"] == "seeded": st[r["patch"].split("/")[1]] = r
+except Exception:
+    pass
 rows = []
 for mf in sorted(glob.glob(os.path.join(ROOT, "seeded", "*", "meta.json"))):
     m = json.load(open(mf)); name = os.path.basename(os.path.dirname(mf))
@@ -10,20 +16,32 @@ for mf in sorted(glob.glob(os.path.join(ROOT, "seeded", "*", "meta.json"))):
     now = m.get("now") or ("detected" if first == "detected" else m.get("signatures", ""))
     if first != "detected" and not m.get("now"):
         now = "detected after strengthening (" + m.get("signatures", "").strip("() ") + ")"
+    r = st.get(name)
+    if r and not str(m.get("now", "")).startswith("NOT claimed"):
+        # the last ./selftest run is the authority for the "now" column
+        now = ("detected: " + ", ".join(r["signatures"][:3]) + (" ..." if len(r["signatures"]) > 3 else "")) if r["rc"] == 1 else ("NOT DETECTED in the last selftest" if r["rc"] == 0 else "machinery error in the last selftest")
     needs = m.get("needs_to_manifest", "")
     if needs == "see notes.md":
         needs = "(see seeded/%s/notes.md)" % name
     rows.append("| %s | %s | %s | %s | %s |" % (name, m.get("breaks", "").replace("|", "/"), needs.replace("|", "/"), first, now.replace("|", "/")))
 table = "| seeded change (directory under seeded/) | what it does | needs to manifest | first run | now |\n|---|---|---|---|---|\n" + "\n".join(rows)
 n = len(rows); missed = sum(1 for r in rows if "**missed**" in r)
+nc = [os.path.basename(os.path.dirname(mf)) for mf in glob.glob(os.path.join(ROOT, "seeded", "*", "meta.json")) if str(json.load(open(mf)).get("now", "")).startswith("NOT claimed")]
+if st:
+    undet = sorted(k for k, r in st.items() if r["rc"] != 1 and k not in nc)
+    now_sentence = "In the last `./selftest` run (%d seeded changes re-run against the current checks) %d are detected by the quick tier, %d deliberately not claimed (%s)%s." % (
+        len(st), sum(1 for r in st.values() if r["rc"] == 1), len(nc), ", ".join(nc) or "-",
+        ("; NOT detected: " + ", ".join(undet)) if undet else "; none is undetected - every first-run miss was closed by widening the enumerated space (column `now`)")
+else:
+    now_sentence = "Every first-run miss was closed by widening the enumerated space (column `now`)."
 import collections
 per = collections.OrderedDict()
 for mf in sorted(glob.glob(os.path.join(ROOT, "seeded", "*", "meta.json"))):
     m = json.load(open(mf)); r = m.get("round", 1)
     a = per.setdefault(r, [0, 0]); a[0] += 1
     if m.get("check_result_first_run", "").startswith("missed"): a[1] += 1
-table += "\n\n%d seeded changes in %d rounds (each later round was told what the earlier ones had used and asked for a different kind of hiding place); first-run result of the quick tier per round: %s. %d were missed at first run in total; every one of them is detected now, after the enumerated space was widened (column `now`).\n" % (
-    n, len(per), "; ".join("round %s: %d of %d detected" % (r, a[0] - a[1], a[0]) for r, a in sorted(per.items())), missed)
+table += "\n\n%d seeded changes in %d rounds (each later round was told what the earlier ones had used and asked for a different kind of hiding place); first-run result of the quick tier per round: %s. %d were missed at first run in total. %s\n" % (
+    n, len(per), "; ".join("round %s: %d of %d detected" % (r, a[0] - a[1], a[0]) for r, a in sorted(per.items())), missed, now_sentence)
 p = os.path.join(ROOT, "DESIGN.md"); s = open(p).read()
 a, b = "<!-- SEED-TABLE-BEGIN -->", "<!-- SEED-TABLE-END -->"
 if a in s:
